@@ -41,7 +41,7 @@ theorem matches_bad_constant_rejected (rx : RegexOk) (lim : Nat) (a b : Bool) (p
   cases h
 
 /-- … and one the compiler accepts passes the precheck: the statement is not vacuous -/
-example : ∃ o, build (fun _ => true) 1024 true false (.call "matches" "" (.acons (.str "a") (.acons (.str "a") .anil))) {} ⟨0, none⟩ = Except.ok o :=
+example : ∃ o, build (fun _ => true) 1024 true false (.call "matches" "" (.acons (.str "a") (.acons (.str "a") .anil))) {} ⟨0, none, none⟩ = Except.ok o :=
   ⟨_, rfl⟩
 
 end XPathV.Lemmas.RegexPrecheck
